@@ -773,7 +773,25 @@ type config struct {
 	depth int
 }
 
+// useAlphabet: configurations whose name starts with "empty-key" use the keys {"", "k1"}: the server accepts a record
+// under the empty key, and its shadow key is the session's key followed by a bare "/".
+func useAlphabet(name string) {
+	if strings.HasPrefix(name, "empty-key") {
+		userKeys = []string{"", "k1"}
+		ranges = []rng{{"k1", "k3", []string{"k1"}}}
+	} else {
+		userKeys = []string{"k1", "k%31", "k/3"}
+		ranges = []rng{
+			{"k%", "k3", []string{"k%31", "k1"}},
+			{"k1", "k3", []string{"k1"}},
+			{"k/", "k//", []string{"k/3"}},
+		}
+	}
+	ops = buildOps()
+}
+
 func spec(c config, deadline time.Time) seqx.Spec {
+	useAlphabet(c.name)
 	return seqx.Spec{Name: "session-ownership-seq", Config: c.name, NOps: len(ops), OpName: func(i int) string { return ops[i].name },
 		New: func(w int) seqx.Instance { return newInst(c.exact, w) }, MaxDepth: c.depth, Deadline: deadline}
 }
@@ -797,21 +815,26 @@ func main() {
 		os.Exit(code)
 	}
 	run := ev.NewRun("C14", "model_checking")
-	cfgs := []config{{"abstract-state", false, 8}, {"exact-state", true, 4}}
+	cfgs := []config{{"empty-key-exact-state", true, 4}, {"abstract-state", false, 8}, {"exact-state", true, 4}}
 	budget := 50 * time.Second
 	if run.Tier == "thorough" {
-		cfgs = []config{{"abstract-state", false, 10}, {"exact-state", true, 6}}
+		cfgs = []config{{"empty-key-exact-state", true, 6}, {"abstract-state", false, 10}, {"exact-state", true, 6}}
 		budget = 17 * time.Minute
 	}
 	if d := os.Getenv("VERIF_DEPTH"); d != "" {
-		fmt.Sscanf(d, "%d", &cfgs[1].depth)
+		fmt.Sscanf(d, "%d", &cfgs[2].depth)
 	}
 	deadline := time.Now().Add(budget)
 	var notes []string
 	for i, c := range cfgs {
 		dl := deadline
-		if i == 0 { // leave at least half of the budget to the second configuration
-			if h := time.Now().Add(budget / 2); h.Before(dl) {
+		if i == 0 { // the small alphabet with the empty key: at most a fifth of the budget
+			if h := time.Now().Add(budget / 5); h.Before(dl) {
+				dl = h
+			}
+		}
+		if i == 1 { // leave at least two fifths of the budget to the last configuration
+			if h := time.Now().Add(2 * budget / 5); h.Before(dl) {
 				dl = h
 			}
 		}
